@@ -1,6 +1,6 @@
 (* C09: dropout never leaks into prediction or validation. *)
 From NV Require Import Prelude Num Random Tensor Activation Objective Optimizer Layers Network Learn.
-From NV.Theory Require Import Monad.
+From NV.Theory Require Import Monad Chunks Par Training.
 Set Implicit Arguments.
 
 Section C09.
@@ -267,3 +267,17 @@ Section C09.
     all_clear (n_layers n) -> predict (strip_net n) x = predict n x.
   Proof. intros H. unfold predict. rewrite (@forward_ignores_dropout_when_clear n x H). reflexivity. Qed.
 End C09.
+
+(* predict_batch (any ordered parallel map, any number of inputs): with every flag off the batch is that
+   of the network configured without dropout; in particular after learn has returned *)
+Theorem predict_batch_dropout_free (N : Num) (p : pmap_t) (Hp : pmap_ordered p) (n : network N) xs :
+  all_clear (n_layers n) -> predict_batch p (strip_net n) xs = predict_batch p n xs.
+Proof.
+  intros H. rewrite !(predict_batch_spec Hp). apply mapM_ext. intros x _. apply predict_dropout_free. exact H.
+Qed.
+
+Theorem after_learn_predict_batch_dropout_free (N : Num) (p q : pmap_t) (Hq : pmap_ordered q)
+        (n n' : network N) xs ts val batch epochs h zs :
+  learn p n xs ts val batch epochs = Ok (n', h) ->
+  predict_batch q (strip_net n') zs = predict_batch q n' zs.
+Proof. intros H. apply (predict_batch_dropout_free Hq). exact (learn_clears_flags _ _ _ _ _ _ _ H). Qed.
